@@ -344,9 +344,18 @@ def drive_cob(case):
     return obs
 
 
-def inside(bands, n, grid):
-    f = REF + n * Fraction(grid)
-    return any(Fraction(b[0]) <= f <= Fraction(b[1]) for b in bands)
+def slot_ranges(bands, grid):
+    """for each band the slots whose nominal frequency 193.1 THz + n * grid lies inside [f_min, f_max] (exact)"""
+    out = []
+    for b in bands:
+        lo = (Fraction(b[0]) - REF) / Fraction(grid)
+        hi = (Fraction(b[1]) - REF) / Fraction(grid)
+        out.append((-((-lo.numerator) // lo.denominator), hi.numerator // hi.denominator))     # ceil, floor
+    return out
+
+
+def inside(ranges, n):
+    return any(a <= n <= b for a, b in ranges)
 
 
 def oracle_cob(case, obs, ctx):
@@ -374,9 +383,10 @@ def oracle_cob(case, obs, ctx):
     if 'exc' in obs:
         fails.append(('bitmap_rejected', obs['exc']))
     bad_free = bad_unus = other = 0
+    rng_ = slot_ranges(common, grid)
     for i, c in enumerate(cells):
         n = n_min + i
-        ins = inside(common, n, grid)
+        ins = inside(rng_, n)
         if c == '1' and not ins:
             bad_free += 1
         elif c == 'u' and ins:
@@ -614,6 +624,17 @@ def gen_net(rng, tricky=False):
             if explicit and (preamp_only or full or rng.random() < 0.5):
                 prev = put(f'preamp {s}{t}', prev)
             cx.append((prev, f'roadm {t}'))
+    if tricky and rng.random() < 0.15:
+        # an external transponder: a transceiver sitting directly on a line of a C-band ROADM
+        cands = [x for x in names if rb[x] is not None and len(rb[x]) == 1 and rb[x][0] is CB]
+        if cands:
+            x = rng.choice(cands)
+            els.append({'uid': 'trx X', 'type': 'Transceiver', 'params': {'design_bands': [copy.deepcopy(CB)]}})
+            for u in ('fiber XR', 'fiber RX'):
+                els.append({'uid': u, 'type': 'Fiber', 'type_variety': 'SSMF',
+                            'params': {'length': 60.0, 'length_units': 'km', 'loss_coef': 0.2, 'con_in': None, 'con_out': None}})
+            cx += [('trx X', 'fiber XR'), ('fiber XR', f'roadm {x}'), (f'roadm {x}', 'fiber RX'), ('fiber RX', 'trx X')]
+            modes['trx-on-line'] = x
     if rng.random() < 0.5:
         rng.shuffle(els)
     if rng.random() < 0.5:
@@ -713,9 +734,9 @@ def drive_net(case):
     owners = []
     for n in nodes:
         o = getattr(n, 'oms', None)
-        owners.append(None if o is None or kind(n) in (0, 1) else next((k for k, x in enumerate(oms_list) if x is o), -1))
+        owners.append(None if o is None else next((k for k, x in enumerate(oms_list) if x is o), -1))
     obs['owners'] = owners
-    obs['owner_ids'] = [getattr(n, 'oms_id', None) if kind(n) not in (0, 1) else None for n in nodes]
+    obs['owner_ids'] = [getattr(n, 'oms_id', None) for n in nodes]
     obs['edges'] = {(ids[a], ids[b]) for a, b in net.edges()}
     body = '/'.join(';'.join(['[' + ','.join(map(str, o['els'])) + ']',
                               ','.join([str(o['n_min']), str(o['n_max']), str(o['fi_min']), str(o['fi_max']),
@@ -770,6 +791,12 @@ def oracle_net(case, obs, ctx):
                 fails.append(('partition', f"line element '{obs['uids'][n[0]]}' belongs to {len(c)} OMS"))
             elif obs['owners'][n[0]] != c[0] or obs['owner_ids'][n[0]] != c[0]:
                 fails.append(('element_oms_ref', f"line element '{obs['uids'][n[0]]}': .oms/.oms_id do not name its OMS"))
+    # a transceiver sitting directly on a line (external transponder): build_oms_list starts an OMS at it AND walks
+    # through it from the ROADM behind; everything such a network breaks in the partition is one finding
+    succ0 = {n[0]: (n[2][0] if n[2] else None) for n in g}
+    trx_on_line = any(n[1] == 1 and succ0[n[0]] is not None and kinds[succ0[n[0]]] != 0 for n in g)
+    if trx_on_line and fails and all(k in ('oms_ends', 'oms_crosses_roadm', 'partition', 'element_oms_ref') for k, _ in fails):
+        fails = [('trx-on-line-oms', 'transceiver placed directly on a line: ' + '; '.join(d for _, d in fails[:4]))]
     # --- reverse pairing
     ends = [(o['els'][0], o['els'][-1]) for o in oms]
     for k, o in enumerate(oms):
@@ -783,11 +810,15 @@ def oracle_net(case, obs, ctx):
             fails.append(('reversed_not_symmetric', f'OMS {k} <-> {o["rev"]}'))
     # --- one common contiguous extent
     allb = [b for n in g if n[1] == 2 for b in n[3]]
-    exp_min = f2n(min(b[0] for b in allb))
-    exp_max = f2n(max(b[1] for b in allb))
+    net_fmin, net_fmax = min(Fraction(b[0]) for b in allb), max(Fraction(b[1]) for b in allb)
+    exp_min, exp_max = f2n(net_fmin), f2n(net_fmax)
+    exp_fi = (f2n(net_fmin + GB), f2n(net_fmax - GB))
     for k, o in enumerate(oms):
         if (o['n_min'], o['n_max']) != (exp_min, exp_max):
             fails.append(('extent', f"OMS {k}: slots {o['n_min']}..{o['n_max']}, network range is {exp_min}..{exp_max}"))
+        if (o['fi_min'], o['fi_max']) != exp_fi:
+            fails.append(('guard_index', f"OMS {k}: assignable centre range {o['fi_min']}..{o['fi_max']}, expected "
+                          f"{exp_fi[0]}..{exp_fi[1]} (network range shrunk by the guard band)"))
         if o['idx'] != list(range(o['n_min'], o['n_max'] + 1)) or len(o['cells']) != len(o['idx']):
             fails.append(('map_shape', f"OMS {k}: freq_index / bitmap do not cover {o['n_min']}..{o['n_max']} once each"))
     # --- FREE exactly inside the common band(s)
@@ -795,8 +826,8 @@ def oracle_net(case, obs, ctx):
     for k, o in enumerate(oms):
         amps = [g[i][3] for i in o['els'] if kinds[i] == 2]
         common = interval_intersection(amps, obs['si'])
-        bad = sum(1 for i, c in enumerate(o['cells'])
-                  if (c == '1') != inside(common, o['n_min'] + i, GRID) or c == '0')
+        rng_ = slot_ranges(common, GRID)
+        bad = sum(1 for i, c in enumerate(o['cells']) if (c == '1') != inside(rng_, o['n_min'] + i) or c == '0')
         if bad:
             if offgrid and not any(c == '0' for c in o['cells']):
                 ctx.count('net_offgrid_slots_not_exact', bad)
@@ -841,6 +872,7 @@ def generate(ctx):
 MATCHERS = {
     'oms-empty-common-range': lambda v: v.get('key') == 'oms-empty-common-range',
     'touching-bands-overlong': lambda v: v.get('key') == 'touching-bands-overlong',
+    'trx-on-line-oms': lambda v: v.get('key') == 'trx-on-line-oms',
 }
 
 
@@ -915,8 +947,8 @@ def run(ctx):
                 continue
             ctx.count('net_designed')
             ctx.count('net_eq_variant_%d' % c['eq'])
-            for m in c.get('modes', {}).values():
-                ctx.count('net_line_mode_' + m)
+            for mk, m in c.get('modes', {}).items():
+                ctx.count('net_trx_on_line' if mk == 'trx-on-line' else 'net_line_mode_' + m)
             if not obs['lines_ok']:
                 ctx.count('net_not_chain_structured')
             layouts = {o['cells'] for o in obs.get('oms', [])}
@@ -933,7 +965,8 @@ def run(ctx):
     light = [i for i, mt in enumerate(meta) if mt[2] != 'corr:Oms.build_oms_list']
     lines = [None] * len(terms)
     for idxs, per_file, tag in ((light, ctx.scale(60, 150), 'cases'), (heavy, ctx.scale(10, 30), 'nets')):
-        out = common.coq_eval('C15', 'Prelude Model.Spectrum Model.Oms Run.C15', [terms[i] for i in idxs],
+        out = common.coq_eval(os.environ.get('C15_WORK', 'C15'), 'Prelude Model.Spectrum Model.Oms Run.C15',
+                              [terms[i] for i in idxs],
                               per_file=per_file, tag=tag, prelude='From Coq Require Import QArith.\nOpen Scope Z_scope.')
         for i, o in zip(idxs, out):
             lines[i] = o
